@@ -105,9 +105,16 @@ class C01(EgSpec):
             for y in range(n):
                 if bits[x * n + y] == '1' and (x == y or hs[x] == hs[y] or (gb and gb[x * n + y] == '1') or (certified is not None and (x, y) in certified)):
                     parent[find(x)] = find(y)
+        # with completeness of the model proved (C01_model_equality_is_exactly_the_congruence), on a history whose terms satisfy the static
+        # premise the model's matrix IS the congruence: an equality the implementation reports and the model denies is unsound
+        static = len(pm) > 3 and isinstance(pm[3], list) and pm[3][0] == 'static' and pm[3][1] == 'true'
         for x in range(n):
             for y in range(n):
                 if bits[x * n + y] == '1' and find(x) != find(y):
+                    if static and me is not None and len(me[1]) == len(bits) and me[1][x * n + y] == '0':
+                        out.append(('violation', 'unsound', 'eq() reports %s = %s, which does not follow from the asserted equations: the e-graph model, proved sound and complete for the congruence on such histories, denies it, and neither the closure nor an explanation certifies it; asserted: {%s}'
+                                    % (show_term(terms[hs[x]]), show_term(terms[hs[y]]), '; '.join(describe_history(pc))), {'handles': [x, y]}))
+                        return out
                     if certified is None:
                         out.append(('note', 'uncertified-no-attempt', 'no certificates available for this history (explanations build failed on it)', {}))
                         break
